@@ -774,7 +774,8 @@ class Interp:
             spec = self.registry.loop_spec(key, header)
             if spec is not None:
                 return spec, (spec.name or label)
-        rec = _loop_headers().get(key, {})
+        rf = os.environ.get('PYVC_RECORD_LOOPS')
+        rec = {} if rf else _loop_headers().get(key, {})  # recording mode (unchanged tree): plain ordinal lookup, the table is being rebuilt
         if header is not None and rec:
             kind = label.split('#')[0]
             cands = [lb for lb, h in rec.items() if h == header and lb.split('#')[0] == kind and self.registry.loop_spec(key, lb) is not None]
@@ -784,7 +785,6 @@ class Interp:
                 # the contract registered under this ordinal was written for another loop, and this loop has none
                 return None, label
         spec = self.registry.loop_spec(key, label)
-        rf = os.environ.get('PYVC_RECORD_LOOPS')
         if spec is not None and rf and header is not None:
             with open(rf, 'a') as fh:
                 fh.write(json.dumps([key, label, header]) + '\n')
